@@ -284,3 +284,29 @@ def _parent_if(root, target):
                     if y is target:
                         return x
     return None
+
+
+SELFTEST = [
+    dict(id='id-digit-changed', file='src/ace_time/zonedb/zone_infos.cpp', find='0xc21305a3 /*zoneId*/',
+         replace='0xc21305a4 /*zoneId*/', rule='T1', construct='kZoneAfrica_Abidjan'),
+    dict(id='header-id-constant-changed', file='src/ace_time/zonedbx/zone_infos.h',
+         find='kZoneIdAfrica_Accra = 0x77d5b054', replace='kZoneIdAfrica_Accra = 0x77d5b055', rule='T4', construct='kZoneIdAfrica_Accra'),
+    dict(id='registry-rows-swapped', file='src/ace_time/zonedb/zone_registry.cpp',
+         find='  &kZoneAfrica_Abidjan, // Africa/Abidjan\n  &kZoneAfrica_Accra, // Africa/Accra\n',
+         replace='  &kZoneAfrica_Accra, // Africa/Accra\n  &kZoneAfrica_Abidjan, // Africa/Abidjan\n', rule='T5'),
+    dict(id='registry-row-duplicated', file='src/ace_time/zonedbx/zone_registry.cpp',
+         find='  &kZoneAfrica_Accra, // Africa/Accra\n', replace='  &kZoneAfrica_Abidjan, // Africa/Accra\n', rule='T5'),
+    dict(id='link-retargeted', file='src/ace_time/zonedb/zone_infos.cpp',
+         find='kZoneUS_Pacific = kZoneAmerica_Los_Angeles;', replace='kZoneUS_Pacific = kZoneAmerica_Denver;', rule='T6', construct='kZoneUS_Pacific'),
+    dict(id='hash-multiplier', file='tools/tzdb/transformer.py', find='hash = (33 * hash + ord(c)) % U32_MOD',
+         replace='hash = (31 * hash + ord(c)) % U32_MOD', rule='G1'),
+    dict(id='hash-shift-spelling-silent', file='tools/tzdb/transformer.py', find='hash = (33 * hash + ord(c)) % U32_MOD',
+         replace='hash = (((hash << 5) + hash) + ord(c)) & 0xFFFFFFFF', expect='silent'),
+    dict(id='id-from-other-variable', file='tools/zonedb/argenerator.py', find='zoneId=hash_name(zone_name),\n            )',
+         replace='zoneId=hash_name(normalize_name(zone_name)),\n            )', rule='G2'),
+    dict(id='registry-unsorted', file='tools/zonedb/argenerator.py',
+         find="for zone_name, eras in sorted(self.zones_map.items()):\n            name = normalize_name(zone_name)",
+         replace="for zone_name, eras in self.zones_map.items():\n            name = normalize_name(zone_name)", rule='G3'),
+    dict(id='collision-check-dropped', file='tools/tzdb/transformer.py',
+         find='zones_map = self._detect_hash_collisions(zones_map)', replace='pass', rule='G4'),
+]
